@@ -126,8 +126,9 @@ class Model:
         self.cross_eval_unspecified = False
 
     # ------------------------------------------------------------------ entry point
-    def run(self, tree, names=None):
-        """Evaluate a program against self.host (or another host mapping). Returns (kind, value)."""
+    def run(self, tree, names=None, ast_names=None):
+        """Evaluate a program against self.host (or another host mapping). Returns (kind, value).
+        ast_names: {name: expression tree} evaluated in order and bound at the host level before the program runs."""
         saved = self.scopes
         if names is not None:
             self.scopes = [self.builtins, names]
@@ -137,6 +138,8 @@ class Model:
         self.epoch += 1
         self.active_epochs = []
         try:
+            for k, t in (ast_names or {}).items():
+                self.scopes[-1][k] = self.expr(t)
             v = self.prog(tree)
             return ('value', v)
         except MErr as e:
